@@ -167,6 +167,33 @@ Proof.
   intros order EO. exact (order_commits_valid s0 o rank Hr order EO).
 Qed.
 
+(** Corollary for the domain the checker uses: every hypothesis of the headline follows from the
+    state invariant, the boolean domain check [dom_ok] (evaluated on every case) and odd-length
+    bookmark targets. *)
+Theorem C11_no_orphans_in_domain : forall (s0 : state) (o : rebase_opts) (s' : state),
+  J s0 -> dom_ok s0 o = true ->
+  (forall name t, In (name, t) (v_bms (s_v s0)) -> Nat.odd (length t) = true) ->
+  rebase_descendants s0 o = Ok s' ->
+  exists s1, rebase_loop s0 o = Ok s1 /\
+    let sh := ancs (pg (s_g s')) (o_imm o ++ div_keys (s_pm s1)) in
+    forall x, covered (pg (s_g s')) (v_heads (s_v s')) x -> ~ In x sh ->
+      ~ Tainted (pg (s_g s')) (nd_keys (s_pm s1)) sh x.
+Proof.
+  intros s0 o s' J0 Dom Odd H.
+  destruct (dom_ok_facts s0 o (j_wf _ J0) Dom) as [[rank Hr] [Tg Root]].
+  apply (no_orphans_model s0 o order_commits_for_rebase s' J0 Tg Odd Root); [|exact H].
+  intros order EO. exact (order_commits_valid s0 o rank Hr order EO).
+Qed.
+
+(** Cycles are detected: whenever resolve_rewrite_mapping returns a mapping (instead of the
+    "Cycle between rewritten commits" error), the selected records are acyclic: there is a rank
+    that strictly decreases from every key to each of its replacements. *)
+Theorem C11_cycle_detected : forall pm pred m,
+  resolve_rewrite_mapping pm pred = Ok m ->
+  exists rank : nat -> nat, forall k r t,
+    In k (pm_keys pm) -> pm_filtered pm pred k = Some r -> In t (new_parent_ids r) -> rank t < rank k.
+Proof. exact resolve_acyclic. Qed.
+
 (** Identity: rebase_descendants leaves every existing commit as it is, and every commit it adds
     is either the rebased copy of a commit [x] that was to be rebased - same change id, same
     description, predecessor [x] - or a re-created working-copy commit: no predecessor, a fresh
@@ -278,6 +305,8 @@ Print Assumptions C11_no_orphans.
 Print Assumptions C11_no_orphans_impl_order.
 Print Assumptions C11_order_valid.
 Print Assumptions C11_no_orphans_rebase_descendants.
+Print Assumptions C11_no_orphans_in_domain.
+Print Assumptions C11_cycle_detected.
 Print Assumptions C11_identity_kept.
 Print Assumptions C11_bookmarks_follow.
 Print Assumptions C11_wc_follows.
